@@ -28,7 +28,7 @@ func dupScenario() []verdict {
 			err error
 		}
 		rc := make(chan res, 1)
-		ctx, cancel := context.WithTimeout(context.Background(), watchdog)
+		ctx, cancel := context.WithCancel(context.Background())
 		defer cancel()
 		go func() {
 			ch, err := w.client.Join(ctx, jid.MustParse(addrs[0]), w.sess)
@@ -53,6 +53,12 @@ func dupScenario() []verdict {
 			return nil
 		}
 		w.finishIter()
+		if !waitFor(watchdog, func() bool { return len(rc) > 0 }) {
+			cancel()
+			if !waitFor(watchdog, func() bool { return len(rc) > 0 }) {
+				return nil
+			}
+		}
 		r := <-rc
 		if r.err != nil {
 			return nil
